@@ -107,11 +107,13 @@ class Runner:
             self._sample = {}
         else:
             B = cls["B"]
-            self._flatten = eqx.filter_jit(lambda b: b.flatten_axes())
-            self._batches = eqx.filter_jit(lambda b, k: b.batches(B, key=k, batch_axes=None))
+            # every documented spelling of the axes to flatten (for a 2-axis buffer): default, ascending, step-major, negative
+            self.axes_variants = [None, (0, 1), (1, 0), (-1, 0)] if cls["n"] > 1 else [None, 0, (0,), -1]
+            self._flatten = {ax: eqx.filter_jit(lambda b, _ax=ax: b.flatten_axes(_ax)) for ax in self.axes_variants}
+            self._batches = {ax: eqx.filter_jit(lambda b, k, _ax=ax: b.batches(B, key=k, batch_axes=_ax)) for ax in self.axes_variants}
             self._indices = eqx.filter_jit(lambda b, k: b.batch_indices(B, key=k))
             self._gather = eqx.filter_jit(lambda b, i: b.gather(i))
-            self._rsample = eqx.filter_jit(lambda bf, k: bf.sample(max(1, B), key=k, batch_axes=None))
+            self._rsample = {ax: eqx.filter_jit(lambda bf, k, _ax=ax: bf.sample(max(1, B), key=k, batch_axes=_ax)) for ax in self.axes_variants}
             self._buf, _ = self._tagged_rollout()
 
     # ------------------------------------------------------------------ plans
@@ -133,7 +135,7 @@ class Runner:
         # rollout API
         return {
             "scenario": NAME, "cls": cls, "faults": [],
-            "ops": [{"op": rng.choice(["batches", "indices_gather", "sample", "flatten"]), "key": rng.getrandbits(31), "shuffle": rng.random() < 0.8} for _ in range(rng.randint(2, 6))],
+            "ops": [{"op": rng.choice(["batches", "indices_gather", "sample", "flatten"]), "key": rng.getrandbits(31), "shuffle": rng.random() < 0.8, "axes": rng.randrange(4)} for _ in range(rng.randint(2, 6))],
         }
 
     def shrink_candidates(self, plan: dict):
@@ -317,18 +319,21 @@ class Runner:
         for op in plan["ops"]:
             key = jr.key(op["key"]) if op["shuffle"] else None
             kind = op["op"]
+            ax = self.axes_variants[op.get("axes", 0) % len(self.axes_variants)]
+            if ax not in (None, (0, 1), 0, (0,)):
+                res.events["E.non_default_axis_order"] += 1
             if kind == "flatten":
-                flat = self._flatten(buf)
+                flat = self._flatten[ax](buf)
                 tags = self._rollout_tags(flat)
                 self._aligned(res, tags, "flatten_bijection", expect_set=set(range(1, N + 1)), expect_len=N)
                 tr.ev("flatten", tags=np.asarray(tags[0]).astype(int).tolist())
             elif kind == "batches":
-                out = self._batches(buf, key)
+                out = self._batches[ax](buf, key)
                 tags = self._rollout_tags(out)
                 tr.ev("batches", tags=np.asarray(tags[0]).astype(int).tolist())
                 self._partition(res, tags, N, B)
             elif kind == "indices_gather":
-                flat = self._flatten(buf)
+                flat = self._flatten[ax](buf)
                 idx = self._indices(flat, key)
                 idx_np = np.asarray(idx)
                 tr.ev("indices", idx=idx_np.tolist())
@@ -348,7 +353,7 @@ class Runner:
                         break
             else:  # sample
                 b = max(1, B)
-                out = self._rsample(buf, jr.key(op["key"]))
+                out = self._rsample[ax](buf, jr.key(op["key"]))
                 tags = self._rollout_tags(out)
                 tr.ev("sample", tags=np.asarray(tags[0]).astype(int).tolist())
                 if self._aligned(res, tags, "row_intact", expect_len=b):
